@@ -11,6 +11,8 @@ thread_local! {
     static ON: Cell<bool> = const { Cell::new(false) };
     static NOW_NS: Cell<u64> = const { Cell::new(0) };
     static READS: Cell<u64> = const { Cell::new(0) };
+    /// a step of the wall clock (NTP correction, operator): REALTIME only
+    static RT_STEP_NS: Cell<i64> = const { Cell::new(0) };
 }
 
 /// wall-clock origin of every world: 2025-09-11T17:23:28Z (the cursor timestamp the worlds use)
@@ -28,6 +30,10 @@ pub fn set_now_ns(ns: u64) {
     NOW_NS.with(|n| n.set(ns));
 }
 
+pub fn set_realtime_step(ns: i64) {
+    RT_STEP_NS.with(|n| n.set(ns));
+}
+
 pub fn reads() -> u64 {
     READS.with(|r| r.get())
 }
@@ -41,12 +47,14 @@ pub unsafe extern "C" fn clock_gettime(clk: libc::clockid_t, ts: *mut libc::time
     }
     let _ = READS.try_with(|r| r.set(r.get() + 1));
     let ns = NOW_NS.try_with(|n| n.get()).unwrap_or(0);
-    let base = match clk {
-        libc::CLOCK_REALTIME | libc::CLOCK_REALTIME_COARSE => REALTIME_BASE_S,
-        _ => MONOTONIC_BASE_S,
+    let (base, step) = match clk {
+        libc::CLOCK_REALTIME | libc::CLOCK_REALTIME_COARSE => (REALTIME_BASE_S, RT_STEP_NS.try_with(|n| n.get()).unwrap_or(0)),
+        _ => (MONOTONIC_BASE_S, 0),
     };
-    (*ts).tv_sec = base + (ns / 1_000_000_000) as i64;
-    (*ts).tv_nsec = (ns % 1_000_000_000) as i64;
+    let total: i128 = base as i128 * 1_000_000_000 + ns as i128 + step as i128;
+    let total = total.max(0);
+    (*ts).tv_sec = (total / 1_000_000_000) as i64;
+    (*ts).tv_nsec = (total % 1_000_000_000) as i64;
     0
 }
 
